@@ -172,6 +172,14 @@ struct World
 			late_timers.back()->expires_after(duration(accept_delay_ns));
 			late_timers.back()->async_wait([post_accept](error_code const& ec) { if (!ec) post_accept(); });
 		}
+		if (bind_before_connect)
+		{
+			// the connector is opened and bound explicitly (to port 0 of its address) before it connects
+			error_code e2;
+			API(c.csock->open(ip::tcp::v4(), e2));
+			API(c.csock->bind(ip::tcp::endpoint(A, 0), e2));
+			R().count("connectors_bound_before_connect");
+		}
 		c.cop = ops.make("tcp.connect", c.id * 2);
 		API(c.csock->async_connect(ip::tcp::endpoint(B, std::uint16_t(4000 + c.id)), track1(c.cop, [this, &c](error_code const& ec) {
 			if (ec) { c.conn_failed = true; return; }
@@ -199,6 +207,7 @@ struct World
 
 	bool early_io = false;
 	std::int64_t accept_delay_ns = 0;
+	bool bind_before_connect = false;
 	std::vector<std::unique_ptr<asio::high_resolution_timer>> late_timers;
 	bool nat = false;
 	bool traffic_enabled = true;
@@ -756,6 +765,8 @@ void case_c20(Args const& a, std::uint64_t c)
 	route_setup(w, false, true, 2);
 	w.build();
 	w.move_after_connect = rng.coin(1, 3);
+	w.bind_before_connect = rng.coin(1, 3);
+	if (w.bind_before_connect) w.desc += " connector bound before connecting";
 	Conn& cn = w.add_conn();
 	static int const ks[] = {1, 2, 3, 10};
 	for (Side* s : {&cn.c, &cn.s})
